@@ -206,6 +206,45 @@ fn observe(qv: &QVector, m: &[u8], at: &str, out: &mut RunOut, digest: &mut Dige
         }
         Err(msg) => out.violate(sig("iter", panic_kind(&msg), "general"), format!("{at}: iter() panicked: {msg}")),
     }
+    // internal iteration (fold: what for_each / sum / count use) on a partly consumed iterator, borrowing and consuming
+    for k in [0usize, 1, n / 3, n.saturating_sub(1)] {
+        if k > n {
+            continue;
+        }
+        let borrowed = catch(|| {
+            let mut it = qv.iter();
+            for _ in 0..k {
+                it.next();
+            }
+            it.fold(Vec::new(), |mut v, x| {
+                v.push(x);
+                v
+            })
+        });
+        let consumed = catch(|| {
+            let mut it = qv.clone().into_iter();
+            for _ in 0..k {
+                it.next();
+            }
+            it.fold(Vec::new(), |mut v, x| {
+                v.push(x);
+                v
+            })
+        });
+        for (label, r) in [("iter()", borrowed), ("into_iter()", consumed)] {
+            match r {
+                Ok(v) => {
+                    if v[..] != m[k..] {
+                        out.violate(
+                            sig("fold", "wrong_value", "general"),
+                            format!("{at}: {label} advanced by {k} and then folded yields {} symbols differing from the pushed values [{k}..] (len()={n})", v.len()),
+                        );
+                    }
+                }
+                Err(msg) => out.violate(sig("fold", panic_kind(&msg), "general"), format!("{at}: {label} advanced by {k} and folded panicked: {msg}")),
+            }
+        }
+    }
     match catch(|| qv.clone().into_iter().collect::<Vec<u8>>()) {
         Ok(v) => {
             if v != m {
